@@ -9,6 +9,16 @@ const T: Duration = Duration::from_secs(20);
 
 // ------------------------------------------------------------------ helpers
 
+/// a Coq list literal; long lists are split into chunks joined by `++` (a single literal of
+/// tens of thousands of elements overflows coqc's stack)
+fn coq_list(items: &[String], scope: &str) -> String {
+    if items.len() <= 2000 {
+        return format!("[{}]%{}", items.join(";"), scope);
+    }
+    let parts: Vec<String> = items.chunks(2000).map(|c| format!("[{}]%{}", c.join(";"), scope)).collect();
+    format!("({})", parts.join(" ++ "))
+}
+
 /// bytes cross into Coq packed 7 per primitive 63-bit integer (little endian) with the
 /// length: `(len, [w0;w1;...]%uint63)`; coqc parses this ~8x faster than a `list N` literal
 fn coq_bytes(b: &[u8]) -> String {
@@ -22,7 +32,7 @@ fn coq_bytes(b: &[u8]) -> String {
             w.to_string()
         })
         .collect();
-    format!("({}, [{}]%uint63)", b.len(), ws.join(";"))
+    format!("({}, {})", b.len(), coq_list(&ws, "uint63"))
 }
 fn coq_opt_bytes(b: &Option<Vec<u8>>) -> String {
     match b {
@@ -262,20 +272,20 @@ fn warr_coq(a: &WArr) -> String {
                 .iter()
                 .map(|r| {
                     let w: Vec<String> = r.iter().map(|x| coq_z(*x as i128)).collect();
-                    format!("[{}]", w.join(";"))
+                    coq_list(&w, "Z")
                 })
                 .collect();
-            format!("(WInts [{}]%Z)", v.join(";"))
+            format!("(WInts [{}])", v.join(";"))
         }
         WArr::F(rows) => {
             let v: Vec<String> = rows
                 .iter()
                 .map(|r| {
                     let w: Vec<String> = r.iter().map(|x| x.to_string()).collect();
-                    format!("[{}]", w.join(";"))
+                    coq_list(&w, "N")
                 })
                 .collect();
-            format!("(WFloats [{}]%N)", v.join(";"))
+            format!("(WFloats [{}])", v.join(";"))
         }
     }
 }
@@ -376,8 +386,21 @@ fn gen_warr(r: &mut Rng, big: bool) -> (&'static str, WArr) {
     (name, a)
 }
 
+/// the largest criterion count the 16-bit header field holds (65535), and one more (the writer's
+/// assertion): one row of small integers, so that the case stays small in the Coq file
+fn case_weights_limit(r: &mut Rng, over: bool) -> (String, String, String, bool, &'static str) {
+    let c = if over { 65536 } else { 65535 };
+    let row: Vec<i64> = (0..c).map(|_| r.range(-3, 3)).collect();
+    let name = if over { "w_65536_criteria" } else { "w_65535_criteria" };
+    case_weights_of(name, WArr::I(vec![row]))
+}
+
 fn case_weights(r: &mut Rng, big: bool) -> (String, String, String, bool, &'static str) {
     let (name, a) = gen_warr(r, big);
+    case_weights_of(name, a)
+}
+
+fn case_weights_of(name: &'static str, a: WArr) -> (String, String, String, bool, &'static str) {
     let wbytes = write_weights(&a);
     let rb = match &wbytes {
         Some(b) => read_weights(b.clone()),
@@ -1248,6 +1271,7 @@ fn main() {
             }
         }
         let (coq, json, key, nontrivial, fam) = match r.below(32) {
+            _ if big && (idx == 40 || idx == 41) => case_weights_limit(&mut r, idx == 41),
             0 | 1 | 2 => case_partition(&mut r, big),
             3 => case_partition_read(&mut r),
             4..=9 => case_weights(&mut r, big),
